@@ -10,6 +10,7 @@
  *   pexact r|d NMAX    the same calls with an EXACT-size heap allocation in a forked child under ASan; answer
  *                      `none` or `crash n:kind,n:kind,..[,more]` (after a report the sweep resumes at n+1; it
  *                      stops after 48 reports)
+ *   pranges s|p        hostlist_shift_range / hostlist_pop_range on a copy until NULL: HEX|HEX|.. or none
  *   pback r|d          hostlist_create(reference text) compared host by host (the hosts the range records of
  *                      both lists denote) with the current list:  same COUNT | diff I HEXA HEXB | null:ERRNO:FATAL | no-reference
  */
@@ -270,13 +271,41 @@ static hostlist_t p_mk(const char *line)
     return h;
 }
 
+/* hostlist_shift_range / hostlist_pop_range on a COPY of the list until NULL (their stack buffers
+ * buf[1024] / buf[MAXHOSTRANGELEN+1] are watched by ASan): the strings returned, `|`-separated */
+static void p_ranges(hostlist_t hl, int which)
+{
+    /* the copy is built with hostlist_push_range, i.e. with tail coalescing: both functions do their bookkeeping with
+     * hltmp->nranges (`hl->nranges -= hltmp->nranges`), which is only right when moving the records into hltmp merges
+     * none of them - true of every list whose joinable neighbours are already joined (lists from the public API) */
+    hostlist_t c = hostlist_new();
+    int k = 0, i;
+    char *s;
+    for (i = 0; i < hl->nranges; i++)
+        hostlist_push_range(c, hl->hr[i]);
+    while ((s = (which == 's' ? hostlist_shift_range(c) : hostlist_pop_range(c))) != NULL) {
+        if (k++) putchar('|');
+        puthex(stdout, s);
+        hl_free(s);
+        if (k > 100000) break;
+    }
+    if (!k) printf("none");
+    putchar('\n');
+    hostlist_destroy(c);
+}
+
 /* returns 1 when the op was one of ours */
 static int print_op(hostlist_t hl, const char *op, const char *line)
 {
     char k[8] = "", nm[64] = "";
-    if (strcmp(op, "ptext") && strcmp(op, "psweep") && strcmp(op, "pexact") && strcmp(op, "pback"))
+    if (strcmp(op, "ptext") && strcmp(op, "psweep") && strcmp(op, "pexact") && strcmp(op, "pback")
+        && strcmp(op, "pranges"))
         return 0;
     sscanf(line, "%*s %7s %63s", k, nm);
+    if (!strcmp(op, "pranges")) {
+        if (k[0] != 's' && k[0] != 'p') printf("bad-arg\n"); else p_ranges(hl, k[0]);
+        return 1;
+    }
     if (k[0] != 'r' && k[0] != 'd') { printf("bad-arg\n"); return 1; }
     if (!strcmp(op, "ptext")) {
         ssize_t rret;
